@@ -6,6 +6,9 @@ package accountant
 
 import (
 	"bytes"
+	"math/rand"
+	"os"
+	"strconv"
 	"fmt"
 	"math"
 	"testing"
@@ -112,6 +115,48 @@ func TestBoundedVertexMsgpack(t *testing.T) {
 		for _, tb := range gocvTimes {
 			v := base
 			v.CreatedAt, v.Transaction.CreatedAt = ta, tb
+			check(v)
+		}
+	}
+	if os.Getenv("VERIF_TIER") == "thorough" {
+		// thorough tier: a seeded pseudo-random sweep mixing the boundary values in every field at once
+		seed, _ := strconv.Atoi(os.Getenv("VERIF_SEED"))
+		rng := rand.New(rand.NewSource(int64(seed) + 20260927))
+		pickLen := func() int {
+			if rng.Intn(4) == 0 {
+				return rng.Intn(70000)
+			}
+			return gocvLens[rng.Intn(len(gocvLens))]
+		}
+		pickInt := func() uint64 {
+			if rng.Intn(3) == 0 {
+				return rng.Uint64()
+			}
+			return gocvInts[rng.Intn(len(gocvInts))]
+		}
+		pickTime := func() time.Time {
+			if rng.Intn(3) == 0 {
+				return time.Unix(0, int64(rng.Uint64()))
+			}
+			return gocvTimes[rng.Intn(len(gocvTimes))]
+		}
+		pickStr := func() string {
+			if rng.Intn(3) == 0 {
+				return string(gocvBytes(rng.Intn(300), byte(rng.Intn(256))))
+			}
+			return gocvStrings[rng.Intn(len(gocvStrings))]
+		}
+		for i := 0; i < 4000; i++ {
+			var v Vertex
+			v.SignerPublicAddress, v.CreatedAt, v.Signature, v.Weight = pickStr(), pickTime(), gocvBytes(pickLen(), byte(i)), pickInt()
+			copy(v.Hash[:], gocvBytes(32, byte(rng.Intn(256))))
+			copy(v.LeftParentHash[:], gocvBytes(32, byte(rng.Intn(256))))
+			copy(v.RightParentHash[:], gocvBytes(32, byte(rng.Intn(256))))
+			tr := &v.Transaction
+			tr.CreatedAt, tr.IssuerAddress, tr.ReceiverAddress, tr.Subject = pickTime(), pickStr(), pickStr(), pickStr()
+			tr.Data, tr.IssuerSignature, tr.ReceiverSignature = gocvBytes(pickLen(), 1), gocvBytes(pickLen(), 2), gocvBytes(pickLen(), 3)
+			copy(tr.Hash[:], gocvBytes(32, byte(rng.Intn(256))))
+			tr.Spice = spice.Melange{Currency: pickInt(), SupplementaryCurrency: pickInt()}
 			check(v)
 		}
 	}
